@@ -108,3 +108,46 @@ fn cover_number() {
     kani::cover!(num(a) == num(b) && a != b, "tolerant equality reachable");
     kani::cover!(num(a).into_integer().is_ok() && a > 1e6);
 }
+
+// ---- C29: the rounding primitives behind math.ceil / floor / round / abs,
+// against their mathematical specification (not against the f64 intrinsic
+// of the same name).  All finite doubles: complete. ----
+fn is_int(r: f64) -> bool {
+    r == r.trunc()
+}
+/// C29: ceil gives the least integer >= x.
+#[kani::proof]
+fn c29_number_ceil() {
+    let x: f64 = kani::any();
+    kani::assume(x.is_finite());
+    let r = f64::from(num(x).ceil());
+    assert!(is_int(r) && r >= x && r - x < 1.0, "ceil: least integer >= x");
+}
+/// C29: floor gives the greatest integer <= x.
+#[kani::proof]
+fn c29_number_floor() {
+    let x: f64 = kani::any();
+    kani::assume(x.is_finite());
+    let r = f64::from(num(x).floor());
+    assert!(is_int(r) && r <= x && x - r < 1.0, "floor: greatest integer <= x");
+}
+/// C29: round gives the nearest integer, halves away from zero.
+#[kani::proof]
+fn c29_number_round() {
+    let x: f64 = kani::any();
+    kani::assume(x.is_finite());
+    let r = f64::from(num(x).round());
+    let d = (r - x).abs();
+    assert!(is_int(r) && d <= 0.5, "round: nearest integer");
+    assert!(d < 0.5 || r.abs() > x.abs(), "round: halves go away from zero");
+}
+/// C29: abs gives the magnitude; trunc rounds toward zero.
+#[kani::proof]
+fn c29_number_abs_trunc() {
+    let x: f64 = kani::any();
+    kani::assume(x.is_finite());
+    let a = f64::from(num(x).abs());
+    assert!(a >= 0.0 && (a == x || a == -x), "abs: the magnitude of x");
+    let t = f64::from(num(x).trunc());
+    assert!(is_int(t) && t.abs() <= x.abs() && x.abs() - t.abs() < 1.0 && (t == 0.0 || (t < 0.0) == (x < 0.0)), "trunc: toward zero");
+}
